@@ -408,6 +408,11 @@ func (w *World) doBounded() {
 		for _, h := range kept {
 			wk = append(wk, key(h))
 		}
+		// which entries are kept is determined even under ties: the unbounded merge of identical clones
+		// linearises the same way the bounded one does before it cuts
+		if joinS(sortedCopy(vals)) != joinS(sortedCopy(kept)) {
+			r.Violate("C16:values", "bound %d of %d (ties): the log holds %v, the last %d of the linearisation the unbounded merge produces are %v", nBound, total, m.Names(sortedCopy(vals)), k, m.Names(sortedCopy(kept)))
+		}
 		if !sort.StringsAreSorted(gk) || hasDup(vals) || joinS(gk) != joinS(sortedCopy(wk)) {
 			r.Violate("C16:values", "bound %d of %d (ties): values %v are not the last %d by (time, id); full linearisation %v", nBound, total, m.Names(vals), k, m.Names(lin))
 		}
